@@ -189,6 +189,18 @@ def build_classes(prog):
         def __repr__(self):
             return f"<{self._real} {self.__dict__.get('_id')}>"
 
+        def __getstate__(self):
+            # as Object/Species.__getstate__: no model pointer, no back-references in a pickled / deep-copied state
+            state = dict(self.__dict__)
+            if "_model" in state and self._real != "Model":
+                state["_model"] = None
+            if self._real in ("Metabolite", "Gene"):
+                state["_reaction"] = set()
+            return state
+
+        def __setstate__(self, state):
+            self.__dict__.update(state)
+
         def _aware(self, what):
             m = self.__dict__.get("_model")
             if m is not None and m.__dict__.get("_contexts"):
